@@ -55,6 +55,7 @@ func main() {
 	if d := os.Getenv("GOCV_VERIF"); d != "" {
 		verifDir = d
 	}
+	loadBaseLocals()
 	switch os.Args[1] {
 	case "fn":
 		cmdFn(os.Args[2:])
@@ -62,6 +63,8 @@ func main() {
 		cmdSweep(os.Args[2:])
 	case "check":
 		os.Exit(cmdCheck(os.Args[2:]))
+	case "locals":
+		os.Exit(cmdLocals(os.Args[2:]))
 	case "selftest":
 		os.Exit(cmdSelftest(os.Args[2:]))
 	default:
@@ -123,9 +126,67 @@ func solveAll(obls []*Obligation, outDir string, tmo int, mode string) {
 		}
 		o.Res = solveAdaptive(o.File, o.SMT, tmo, mode)
 	})
+	resolveGroups(obls)
+}
+
+// resolveGroups decides the groups of alternative obligations: an alternative wins if all its obligations hold; if
+// none does, the alternative with the fewest failures is the one reported. Obligations of the other alternatives are
+// dropped (they count as neither discharged nor failed).
+func resolveGroups(obls []*Obligation) {
+	type stat struct{ n, bad int }
+	groups := map[string]map[string]*stat{}
+	for _, o := range obls {
+		if o.Group == "" {
+			continue
+		}
+		if groups[o.Group] == nil {
+			groups[o.Group] = map[string]*stat{}
+		}
+		s := groups[o.Group][o.Alt]
+		if s == nil {
+			s = &stat{}
+			groups[o.Group][o.Alt] = s
+		}
+		s.n++
+		if !o.ok() {
+			s.bad++
+		}
+	}
+	winner := map[string]string{}
+	for g, alts := range groups {
+		// an alternative must cover every access: it needs as many obligations as the largest alternative
+		max := 0
+		for _, s := range alts {
+			if s.n > max {
+				max = s.n
+			}
+		}
+		var names []string
+		for a := range alts {
+			names = append(names, a)
+		}
+		sort.Strings(names)
+		best, bestBad := "", 1<<30
+		for _, a := range names {
+			s := alts[a]
+			bad := s.bad + (max - s.n)
+			if bad < bestBad {
+				best, bestBad = a, bad
+			}
+		}
+		winner[g] = best
+	}
+	for _, o := range obls {
+		if o.Group != "" && winner[o.Group] != o.Alt {
+			o.Dropped = true
+		}
+	}
 }
 
 func (o *Obligation) ok() bool {
+	if o.Dropped {
+		return true
+	}
 	if o.Reach {
 		return o.Res.Status != "unsat" && o.Res.Status != "error"
 	}
